@@ -9,7 +9,7 @@ use crate::wire;
 use crate::world::{Cond, Opts, Outcome, Scenario};
 use std::collections::{BTreeMap, BTreeSet};
 
-pub const PROGRAMS: &[&str] = &["auto", "txn", "failtxn", "exttxn", "batch2", "pipelined", "copyin", "copyout", "copyfail"];
+pub const PROGRAMS: &[&str] = &["auto", "txn", "failtxn", "exttxn", "batch2", "pipelined", "copyin", "copyout", "copyfail", "copyout-srvfail", "copyin-srvfail"];
 
 fn ext(tagstr: &str, sql: &str) -> Vec<u8> {
     let mut b = wire::parse("", &format!("{} /*{}*/", sql, tagstr), &[]);
@@ -78,6 +78,20 @@ pub fn program(c: usize, prog: &str, user: &str, db: &str, pw: &str) -> Script {
         }
         "copyout" => {
             s = s.q(&format!("COPY t TO STDOUT /*{} rows=3*/", t(0, 0))).q(&format!("SELECT 3 /*{}*/", t(1, 0)));
+        }
+        "copyout-srvfail" => {
+            // the server aborts COPY OUT mid-stream with an ErrorResponse
+            s = s.q(&format!("COPY t TO STDOUT /*{} failmid*/", t(0, 0))).q(&format!("SELECT 3 /*{}*/", t(1, 0))).q(&format!("SELECT ERR! /*{}*/", t(2, 0))).q(&format!("SELECT 4 /*{}*/", t(3, 0)));
+        }
+        "copyin-srvfail" => {
+            // the server rejects COPY IN at CopyDone
+            s = s
+                .send(wire::query(&format!("COPY t FROM STDIN /*{} failatdone*/", t(0, 0))), "Q COPY FROM STDIN")
+                .wait(Cond::CodeOrClosed(b'G', 1))
+                .send(wire::copy_data(format!("row1 {}\n", t(0, 1)).as_bytes()), "d")
+                .send_z(wire::copy_done(), "c")
+                .q(&format!("SELECT ERR! /*{}*/", t(1, 0)))
+                .q(&format!("SELECT 3 /*{}*/", t(2, 0)));
         }
         "copyfail" => {
             s = s
